@@ -79,8 +79,9 @@ CLAIMED = {
     'C11': dict(
         text="Lean theorems for every record list and every pad length n: with tolerance on, the availability-mask DTC parsers return the encoded records, plus one DTC 0 per whole all-zero "
              "record of the padding when ignore_all_zero_dtc is off (n / record size of them), dropping a partial record; with tolerance off, n not a multiple of the record size is an invalid "
-             "response while whole zero records are still parsed; read_memory_by_address trims / refuses; IO control with a fixed-length codec trims / refuses. The other padding-aware parsers "
-             "(snapshot, extended data, fault counter, WWH-OBD, ReadDataByIdentifier, RequestFileTransfer) are modelled and tied by the correspondence suite (partial). Domain extracted from the "
+             "response while whole zero records are still parsed; read_memory_by_address trims / refuses; IO control with a fixed-length codec trims / refuses; the WWH-OBD, fault-counter, "
+             "extended-data and ReadDataByIdentifier (fixed-length codecs) parsers: zero padding tolerated when the option is on, one or two pad bytes refused when it is off. The snapshot and "
+             "RequestFileTransfer parsers are modelled and tied by the correspondence suite (partial). Domain extracted from the "
              "docstrings on every run (31 methods). Known finding: sub-function 0x16 rejects two whole zero records. Tied by every valid reply x pad 0..2*record+1 x 4 settings.",
         design_ref='DESIGN.md §3 C11',
         technique='Lean 4 proof (strong induction on the pad length, prefix lemma by list induction) + docstring-extracted domain + differential correspondence'),
@@ -108,16 +109,19 @@ CLAIMED = {
              "DynamicallyDefineDataIdentifier, ReadDTCInformation: all request groups table-tied to the ISO layout for every sub-function byte by kernel decide, RequestFileTransfer with Filesize "
              "objects, Authentication: all 9 tasks, the simple services, memory-addressed requests): when the builder succeeds the payload is sid, sub-function, parameters big-endian in the "
              "standard's order and width, and an independent server-side decoder (Uds/Spec/Request.lean) gives back the caller's arguments, for arbitrary identifiers, lists, byte strings and "
-             "widths; inside a suppress block only bit 7 of the sub-function byte changes and the decoder reads it back; services without sub-function cannot carry it. RequestFileTransfer: layout "
-             "theorem only (_partial), the decoder round trip for it and for 5 of the 13 simple wrappers is established by the correspondence suite. Tied by structured calls on every entry point "
-             "and wrapper: real client vs udsdrv, and the Spec decoder applied to the frame the real client sent.",
+             "widths; inside a suppress block only bit 7 of the sub-function byte changes and the decoder reads it back; services without sub-function cannot carry it. The decoder round trip is "
+             "a theorem for every builder, including RequestFileTransfer (rft_frame_decodes), all 13 simple wrappers and DynamicallyDefineDataIdentifier by source identifier. The sub-function "
+             "groups of read_dtc_information, its MemorySelection list, the per-mode parameter lists of RequestFileTransfer and every validate_int literal are extracted from the source AST on "
+             "every run and proved equal to the model's (Tie/Groups, Tie/Bounds). Tied by structured calls on every entry point and wrapper: real client vs udsdrv, and the Spec decoder applied "
+             "to the frame the real client sent.",
         design_ref='DESIGN.md §3 C01',
         technique='Lean 4 proof (decode∘encode per service, list induction, table tie by decide +kernel) + differential correspondence + Spec decoder on the implementation\'s frames'),
     'C02': dict(
         text="Lean theorems interpret(Spec.encode v) = v over line-faithful models of the response interpreters: ReadDTCInformation availability-mask groups with arbitrary record lists "
              "(4- and 6-byte records, with and without MemorySelection; list order and count by induction), number-of-DTC replies, RequestDownload/Upload maxNumberOfBlockLength unsigned on 1..8 "
-             "bytes (all values below 256^w, incl. bit 63). The other interpreters (simple services, ReadDataByIdentifier, IO control, RequestFileTransfer, Authentication, the snapshot / "
-             "extended-data / WWH-OBD / fault-counter groups) are modelled line by line and tied by the correspondence suite; their round-trip theorems are not proved yet (partial). "
+             "bytes (all values below 256^w, incl. bit 63), every other ReadDTCInformation reply group (snapshot identification, snapshots by DTC / by record number with per-DID codecs, "
+             "extended data by DTC / by record number, WWH-OBD, fault counters, user-defined-memory variants), ReadDataByIdentifier with fixed-length codecs, RequestFileTransfer for every "
+             "mode of operation, Authentication with and without algorithm indicator. The simple services and IO control are modelled line by line and tied by the correspondence suite. "
              "Tied by semantic reply values (field minima/maxima, 0..N records, DID sizes 1..8, per-DTC size dict) encoded by an independent reference encoder, fed to the real client and to the model.",
         design_ref='DESIGN.md §3 C02',
         technique='Lean 4 proof (list induction over record lists, toBE/fromBE lemmas) + differential correspondence with a reference encoder'),
@@ -146,7 +150,9 @@ CLAIMED = {
     'C07': dict(
         text="Lean theorems: for every request builder, make_request succeeds IFF the arguments are in the documented domain (accept-iff theorems: identifier ranges, configured codecs and their "
              "lengths, read-all codec only last, IO masks defined and fitting, sub-function defined and allowed by the edition, every ISO request parameter present and in range, dtc_class rule, "
-             "file-transfer mode / path / DataFormatIdentifier / Filesize object rules incl. width, authentication task fields, memory values fitting their width via C14); a failing builder "
+             "file-transfer mode / path / DataFormatIdentifier / Filesize object rules incl. width, authentication task fields, communication type / node id, link-control baudrate forms, "
+             "memory values fitting their width via C14); every validate_int(min, max) literal in the services is extracted from the AST on every run and the model builder is proved to accept "
+             "exactly that interval at both boundaries (Tie/Bounds); a failing builder "
              "precedes send_request, so nothing is sent. Known findings (KNOWN-FINDING lines): superfluous parameters of read_dtc_information / authentication are ignored, the two 'todo' "
              "sub-functions are transmitted bare, extended-data size is validated after sending. Tied by the out-of-domain stream on the real client (connection untouched) and a wrong-type sweep "
              "over every int-annotated parameter of all 80 entry points.",
